@@ -637,4 +637,121 @@ theorem number_exact_of_parse (c : Cfg) (hS : RelClass c) (hpre : c.basePrefix =
       rw [hnil]
       simp [ofDigits]
 
+/-! ## the API-level syntax layer -/
+
+theorem parseSign_slc (c : Cfg) (hd : c.debug = false) (np rq : Bool) (ip ms : String) (b : Bytes) (r : Bool × Bytes)
+    (h : parseSign c np rq ip ms b = .ok r) : r.2.slc = b.slc := by
+  unfold parseSign at h
+  split at h
+  · split at h
+    · simp only [step_release c hd, bind, Except.bind, pure, Except.pure, Except.ok.injEq] at h
+      rw [← h]
+    · cases h
+  · simp only [step_release c hd, bind, Except.bind, pure, Except.pure, Except.ok.injEq] at h
+    rw [← h]
+  · split at h
+    · cases h
+    · simp only [pure, Except.pure, Except.ok.injEq] at h
+      rw [← h]
+
+theorem isConsumed_same (c : Cfg) (hS : RelClass c) (b : Bytes) (hn : NoSep c b.slc) (r : Bool × Bytes)
+    (h : isConsumed c .integer b = .ok r) : r.2 = b := by
+  unfold isConsumed at h
+  split at h
+  · simp only [Except.ok.injEq] at h; rw [← h]
+  · rw [peek_nosep c .integer b hn (hS.reach _)] at h
+    simp only [bind, Except.bind, pure, Except.pure, Except.ok.injEq] at h
+    rw [← h]
+
+/-- the class of formats `NumberExact` is about gives the closed-form class of the phase lemmas -/
+theorem relClass_of (c : Cfg) (hd : c.debug = false) (hclass : c.feats.format = false ∨ SepPrefixFree c.fmt)
+    (hr : c.mantissaRadix = 10) : RelClass c ∧ c.basePrefix = 0 ∧ c.digitSeparator = 0 ∧ c.exponentRadix ≤ 255 := by
+  have hs := std_of c hd hclass (by intro _; omega)
+  exact ⟨⟨hd, fun k => by rw [hs.nosep.skip k]; decide, by intro _; omega⟩, hs.noprefix, hs.nosep.sep0, hs.expRadix⟩
+
+/-- **`NumberExact`, proved** (with the two side conditions the statement in `Props.C01Main` lacks: the decimal point of
+the options is not a digit — implied by `is_valid_options_punctuation` — and the input is shorter than `2^60` bytes):
+every untruncated decimal `Number` the syntax layer produces for a format without digit separator and base prefix is
+exact, its digit slices are plain, and it has at most 19 significant digits. -/
+theorem number_exact_of_syntax (c : Cfg) (hd : c.debug = false)
+    (hclass : c.feats.format = false ∨ SepPrefixFree c.fmt) (hr : c.mantissaRadix = 10) (hb : c.exponentBase = 10)
+    (o : POpts) (hdp : charToDigit o.dp 10 = none) (isPartial : Bool) (s : List Nat) (fv : Bool)
+    (h256 : ∀ x ∈ s, x < 256) (hlen : s.length < 2 ^ 60) (n : Number) (cnt : Nat)
+    (hp : parseFloatSyntax c o isPartial s fv = .ok (.number n cnt)) (hmany : n.manyDigits = false) :
+    NumberExactAt c n ∧ PlainSlices c n ∧ (sigBytes n.integer n.fraction).length ≤ 19 := by
+  obtain ⟨hS, hpre, hsep, hre⟩ := relClass_of c hd hclass hr
+  have hns : ∀ l, NoSep c l := noSep_of_sep_zero c hsep
+  unfold parseFloatSyntax at hp
+  simp only [bind, Except.bind] at hp
+  cases hsg : parseMantissaSign c (Bytes.new s) with
+  | error e => rw [hsg] at hp; cases hp
+  | ok r1 =>
+    rw [hsg] at hp
+    simp only at hp
+    have hslc1 : r1.2.slc = s := parseSign_slc c hd _ _ _ _ _ r1 hsg
+    cases hic : isConsumed c .integer r1.2 with
+    | error e => rw [hic] at hp; cases hp
+    | ok r2 =>
+      rw [hic] at hp
+      simp only at hp
+      have hsame := isConsumed_same c hS r1.2 (hns _) r2 hic
+      have hslc2 : r2.2.slc = s := by rw [hsame, hslc1]
+      have key : ∀ p cnt', parseNumber c p o r2.2 r1.1 fv = .ok (n, cnt') →
+          NumberExactAt c n ∧ PlainSlices c n ∧ (sigBytes n.integer n.fraction).length ≤ 19 :=
+        fun p cnt' hpn => number_exact_of_parse c hS hpre hr hb hre p o hdp r2.2 r1.1 fv (hns _)
+          (by rw [hslc2]; exact h256) (by rw [hslc2]; exact hlen) n cnt' hpn hmany
+      split at hp
+      · split at hp <;> cases hp
+      · split at hp
+        · -- partial parser
+          cases hpn : parseNumber c true o r2.2 r1.1 fv with
+          | ok v =>
+            rw [hpn] at hp
+            simp only [pure, Except.pure, Except.ok.injEq, Parsed.number.injEq] at hp
+            exact key true v.2 (by rw [hpn, ← hp.1])
+          | error e =>
+            rw [hpn] at hp
+            cases e with
+            | err k i =>
+              simp only at hp
+              cases hsp : parsePositiveSpecial c o r2.2 with
+              | error e2 => rw [hsp] at hp; cases hp
+              | ok sp =>
+                rw [hsp] at hp
+                cases sp with
+                | none => cases hp
+                | some v => simp [pure, Except.pure] at hp
+            | panic t => cases hp
+            | fault t => cases hp
+        · -- complete parser
+          cases hpc : parseCompleteNumber c o r2.2 r1.1 fv with
+          | ok v =>
+            rw [hpc] at hp
+            simp only [pure, Except.pure, Except.ok.injEq, Parsed.number.injEq] at hp
+            unfold parseCompleteNumber at hpc
+            simp only [bind, Except.bind] at hpc
+            cases hpn : parseNumber c false o r2.2 r1.1 fv with
+            | error e => rw [hpn] at hpc; cases hpc
+            | ok w =>
+              rw [hpn] at hpc
+              simp only at hpc
+              split at hpc
+              · simp only [pure, Except.pure, Except.ok.injEq] at hpc
+                exact key false w.2 (by rw [hpn, ← hp.1, ← hpc])
+              · cases hpc
+          | error e =>
+            rw [hpc] at hp
+            cases e with
+            | err k i =>
+              simp only at hp
+              cases hsp : parseSpecialComplete c o r2.2 with
+              | error e2 => rw [hsp] at hp; cases hp
+              | ok sp =>
+                rw [hsp] at hp
+                cases sp with
+                | none => cases hp
+                | some v => simp [pure, Except.pure] at hp
+            | panic t => cases hp
+            | fault t => cases hp
+
 end LexVerif.Props.C01Number
